@@ -24,6 +24,8 @@ def plan(tier, seed):
     specs.append({"kind": "vectors"})
     specs.append({"kind": "malformed", "count": 300 if tier == "quick" else 6000})
     specs.append({"kind": "files", "count": 20 if tier == "quick" else 400})
+    for T in ([4] if tier == "quick" else [2, 4, 8, 16]):
+        specs.append({"kind": "threads", "threads": T, "count": 400 if tier == "quick" else 6000})
     return specs
 
 
@@ -202,6 +204,21 @@ def run_malformed(spec, rec, lib):
                 elif o.family not in ("TypeError", "ValueError"):
                     viol(rec, boundary.mechanism("undocumented-error", dotted, "TypeError|ValueError", o),
                          "malformed key encoding raised %s" % o.cls, case)
+                else:
+                    # the same malformed value again, right after it has been rejected (and after a valid key of the same kind
+                    # has been loaded): still rejected
+                    good = gkeys.key(n % 7)
+                    try:
+                        (C.PrivateKey if "Private" in dotted else C.PublicKey).from_bytes(good.seed if "Private" in dotted else good.pub)
+                    except Exception:  # noqa: BLE001
+                        pass
+                    for _rep in range(2):
+                        o2 = boundary.call(lib, lib.fn(dotted), caselang.dec(a, lib))
+                        rec.count("malformed_repeats")
+                        if o2.accepted:
+                            viol(rec, "malformed-accepted/" + dotted + "/on-repeat",
+                                 "malformed key encoding %r rejected the first time, accepted when offered again" % (a,), case)
+                            break
         # random lengths
         for dotted in ("common.PrivateKey.from_bytes", "common.PublicKey.from_bytes"):
             ln = rng.choice([l for l in range(0, 70) if l != 32])
@@ -356,7 +373,58 @@ def run_files(spec, rec, lib):
             viol(rec, "rfc8032/gen_keys-pair-mismatch", "gen_keys returned a public key not derived from the private key", {"kind": "files"})
 
 
+def run_threads(spec, rec, lib):
+    """conversions of DIFFERENT keys running at the same time each return their own key's RFC 8032 values"""
+    from ..engines import threads
+
+    rng = random.Random(spec["seed"])
+    C = lib.common
+    jobs, meta = [], []
+
+    def chain_pub(hexkey):
+        k = C.PublicKey.from_hex(hexkey)
+        return C.PublicKey.to_hex(k), C.PublicKey.to_bytes(k)
+
+    def chain_priv(seed, msg):
+        k = C.PrivateKey.from_bytes(seed)
+        return C.PrivateKey.to_hex(k), C.PublicKey.to_hex(k.public_key()), k.sign(msg)
+
+    def chain_priv_hex(seedhex, msg):
+        k = C.PrivateKey.from_hex(seedhex)
+        return C.PrivateKey.to_bytes(k), C.PublicKey.to_bytes(k.public_key()), k.sign(msg)
+
+    for i in range(spec["count"]):
+        seed = rng.getrandbits(256).to_bytes(32, "big") if rng.random() < 0.7 else gkeys.key(rng.randrange(6)).seed
+        msg = rng.getrandbits(8 * 20).to_bytes(20, "big")
+        pub = ed25519.public(seed)
+        r = i % 3
+        if r == 0:
+            jobs.append((chain_pub, (pub.hex(),), {}))
+            meta.append(("PublicKey.from_hex/to_hex/to_bytes", (pub.hex(), pub), seed))
+        elif r == 1:
+            jobs.append((chain_priv, (seed, msg), {}))
+            meta.append(("PrivateKey.from_bytes/to_hex/public_key/sign", (seed.hex(), pub.hex(), ed25519.sign(seed, msg)), seed))
+        else:
+            jobs.append((chain_priv_hex, (seed.hex(), msg), {}))
+            meta.append(("PrivateKey.from_hex/to_bytes/public_key/sign", (seed, pub, ed25519.sign(seed, msg)), seed))
+    res = threads.run_calls(lib, jobs, spec["threads"], rec, spec["seed"], prob=0.2, label="key conversions")
+    if res is None:
+        return
+    for (what, want, seed), out in zip(meta, res):
+        if out is None:
+            continue
+        rec.case("thr|%s|%s" % (what, seed.hex()[:16]))
+        case = {"kind": "seed", "seed": seed.hex(), "msg": "00"}
+        if not out.accepted:
+            viol(rec, boundary.mechanism("key-conversion-under-threads", what, "values", out), "conversion of a valid key raised under threads", case)
+        elif tuple(out.value) != tuple(want):
+            viol(rec, "key-conversion-under-threads/%s/other-key-returned" % what.split("/")[0],
+                 "conversion chain %s returned values that are not this key's (another thread's key?)" % what, case)
+
+
 def run_shard(spec, rec, lib):
+    if spec["kind"] == "threads":
+        return run_threads(spec, rec, lib)
     {"seeds": run_seeds, "vectors": run_vectors, "malformed": run_malformed, "files": run_files}[spec["kind"]](spec, rec, lib)
 
 
